@@ -88,6 +88,9 @@ def solve(formula, display=True, log=False, params={}):
         y = None
 
     try:
+        if grb.Status in (3, 4, 5):
+            # infeasible / unbounded: a heuristic incumbent is not a solution
+            raise AttributeError
         solution = Solution('Gurobi', grb.ObjVal, np.array(grb.getAttr('X')),
                             grb.Status, grb.Runtime, y=y)
     except AttributeError:
